@@ -381,8 +381,9 @@ def degen_case(draw, tier="quick"):
     degen = [draw(st.booleans()) for _ in range(n)] if npos else [True]
     scales = [draw(C.scale()) for _ in range(3)]
     mags = [draw(st.sampled_from([0, 0, 8, 15])) for _ in range(n)] if npos > 1 and draw(st.booleans()) else None
+    narrow = draw(st.sampled_from([None, None, None, "int16", "int32", "uint8", "uint16"]))
     return {"cfg": cfg, "dim": dim, "npos": npos, "base": base, "coef": coef, "degen": degen, "scales": scales,
-            "zero_at": draw(st.integers(0, 2)), "twoaxes": shape2 and npos in (2,), "mags": mags}
+            "zero_at": draw(st.integers(0, 2)), "twoaxes": shape2 and npos in (2,), "mags": mags, "narrow": narrow}
 
 
 def config_args(cfg, dim, base, coef, degen, zero_at):
@@ -507,7 +508,31 @@ def run_degen(case):
         raise Skip("arity differs")
     sc = [C.scale_value(s) for s in case["scales"]]
     objs = []
-    for k in range(nargs):
+    narrow = case.get("narrow")
+    if narrow is not None and narrow not in ("int16", "int32", "uint8", "uint16"):
+        raise Skip("malformed dtype")
+    if narrow and any(a[0] not in "PH" for args in per for a in args):
+        narrow = None  # Pluecker matrices of lines are not integral here
+    if narrow:
+        # arguments stored in a small integer type, as large as that type allows (every coordinate fits, the products inside
+        # join / meet do not): the outcome is that of the exact integers
+        ints = [[np.array([int(x) for x in per[i][k][1]], dtype=np.int64) for i in range(N)] for k in range(nargs)]
+        top = max(1, max(int(np.max(np.abs(a))) for row in ints for a in row))
+        if narrow.startswith("u") and any(np.any(a < 0) for row in ints for a in row):
+            narrow = narrow[1:]
+        mul = 1
+        while mul < 2**14 and top * mul * 2 <= np.iinfo(narrow).max:
+            mul *= 2
+        for k in range(nargs):
+            kind = per[0][k][0]
+            arrs = [(a * mul).astype(narrow) for a in ints[k]]
+            o = build_arg(kind, arrs[0] if npos == 0 else arrs, n)
+            if o.array.dtype != np.dtype(narrow):
+                raise HarnessError(f"dtype {o.array.dtype} instead of {narrow}")
+            if npos and case["twoaxes"]:
+                o = type(o)(o.array.reshape((2, 1) + o.array.shape[1:]))
+            objs.append(o)
+    for k in range(nargs if not narrow else 0):
         kind = per[0][k][0]
         if npos == 0:
             objs.append(build_arg(kind, arg_array(per[0][k]) * sc[k], n))
@@ -578,6 +603,10 @@ def degen_nontrivial(c):
 
 
 def degen_labels(c):
+    return _degen_labels(c) + (["narrow-integer-type"] if c.get("narrow") else [])
+
+
+def _degen_labels(c):
     out = [c["cfg"], "single" if c["npos"] == 0 else "collection"]
     if c["npos"] and not any(c["degen"]):
         out.append("collection-without-degenerate-position")
@@ -598,5 +627,5 @@ LAWS = [
         {"quick": 1500, "thorough": 30000}, "collections of pairs of 3D lattice lines through a common point: meet / join give the exact point / plane at every position, nothing raised", shard=300),
     Law("constructed", lambda tier: degen_case(tier), run_degen, degen_nontrivial, degen_labels, {"quick": 2500, "thorough": 40000},
         "constructed degeneracies with scrambled representatives, single and inside collections", shard=300,
-        mandatory=("collection", "single", "collection-without-degenerate-position", "mixed-magnitude-collection")),
+        mandatory=("collection", "single", "collection-without-degenerate-position", "mixed-magnitude-collection", "narrow-integer-type")),
 ]
